@@ -406,6 +406,38 @@ def observe(loader, case):
     return og, oe
 
 
+def multi_file(chk, loader):
+    """several COND files with groups in ONE invocation: instance names are file-local, so two files may use
+    the same names; the closure of a task that reaches both must load exactly like the explicit forms"""
+    import pathlib
+    from conductor.parsing.task_index import TaskIndex
+    from conductor.task_identifier import TaskIdentifier
+
+    grp = lambda name, deps: ('run_experiment_group(name=%r, run="true", experiments=[ExperimentInstance(name="run-1"), '  # noqa: E731
+                              'ExperimentInstance(name="run-2", args=[1])], deps=%r)\n' % (name, deps))
+    exp = lambda name, deps: ('run_experiment(name="run-1", run="true", deps=%r)\nrun_experiment(name="run-2", run="true", args=[1], deps=%r)\n'  # noqa: E731
+                              'combine(name=%r, deps=[":run-1", ":run-2"])\n' % (deps, deps, name))
+    forms = {
+        "group": {DIR + "/COND": grp("sweep", ["//sub:sweep", "//sub/deep:sweep"]), "sub/COND": grp("sweep", []), "sub/deep/COND": grp("sweep", ["//sub:sweep"])},
+        "explicit": {DIR + "/COND": exp("sweep", ["//sub:sweep", "//sub/deep:sweep"]), "sub/COND": exp("sweep", []), "sub/deep/COND": exp("sweep", ["//sub:sweep"])},
+    }
+    seen = {}
+    for form, files in forms.items():
+        root = loader.write(dict(files, **{"other/COND": OTHER_COND}))
+        idx = TaskIndex(pathlib.Path(root))
+        try:
+            idx.load_transitive_closure(TaskIdentifier.from_str("//%s:sweep" % DIR))
+            seen[form] = ("ok", sorted((str(k), type(t).__name__, tuple(str(d) for d in t.deps)) for k, t in idx.get_all_loaded_tasks().items()))
+        except Exception as ex:  # pylint: disable=broad-except
+            seen[form] = ("err", type(ex).__name__, str(ex)[:200])
+        chk.coverage["evaluations"] += 1
+    if seen["group"] != seen["explicit"]:
+        chk.violation("impl-violation", "groups in several COND files of one invocation (same instance names in each file): group form loads as %r, the documented expansion as %r" % (seen["group"], seen["explicit"]),
+                      {"input": {"files_group_form": forms["group"], "files_explicit_form": forms["explicit"], "load": "//%s:sweep" % DIR},
+                       "impl_observation": seen, "oracle_verdict": "both forms must load to the same task graph"},
+                      match_key={"group": "multi-file-same-instance-names"}, size=3)
+
+
 def canon(o):
     """comparable form of an outcome"""
     if o[0] == "ok":
@@ -496,6 +528,7 @@ def run(tier, seed, replay=None):
         "run_experiment / combine raise only ConductorErrors (never TypeError) -- true of the shims by reading; C19_equal holds for every handler that returns a result",
     ]
     loader = Loader()
+    multi_file(chk, loader)
 
     if replay is not None:
         case = unjson(replay["input"])
